@@ -22,7 +22,9 @@
      UnframedBodyToH1      a body without content-length received over h2/h3 is written after an HTTP/1 head that
                            announces no body
      PseudoSpaceToH1       a space inside :path / :method reaches the HTTP/1 request line
-     NoContentBodyToH1     the body of a 204 response received over h2/h3 is written after the HTTP/1 head          *)
+     NoContentBodyToH1     the body of a 204 response received over h2/h3 is written after the HTTP/1 head
+     ExcessBodyToH1        streamed h3 request: DATA beyond the declared content-length is written after the complete
+                           HTTP/1 message (aioquic compares the lengths only when the stream ends)                    *)
 EXTENDS Mon_HttpXlate, TLC
 CONSTANTS Cases
 VARIABLES done, mon, obs
@@ -32,13 +34,13 @@ ZeroMsg == [method |-> 0, scheme |-> 0, auth |-> 0, host |-> 0, path |-> 0, stat
             fields |-> <<>>, cookies |-> <<>>, body |-> <<>>, trailers |-> <<>>]
 
 H2ReqRejects == {"upper", "connhdr", "crlf_value", "lf_value", "nul_value", "ws_value", "crlf_path", "dup_pseudo",
-                 "missing_path", "host_mismatch", "cl_short", "cl_long"}
+                 "missing_path", "host_mismatch", "cl_short", "cl_long", "cl_short_mid"}
 H3ReqRejects == {"upper", "crlf_value", "lf_value", "nul_value", "ws_value", "crlf_path", "dup_pseudo",
-                 "missing_path", "host_only", "cl_short", "cl_long"}
+                 "missing_path", "host_only", "cl_short", "cl_long", "cl_short_mid"}
 H2RespRejects == {"upper", "connhdr", "crlf_value", "lf_value", "nul_value", "cl_short", "cl_long", "dup_status", "bad_status"}
 H3RespRejects == {"upper", "crlf_value", "lf_value", "nul_value", "cl_short", "cl_long", "dup_status", "bad_status"}
 
-LengthMismatch(c) == c.cls \in {"cl_short", "cl_long"}
+LengthMismatch(c) == c.cls \in {"cl_short", "cl_long", "cl_short_mid"}
 \* a streamed message is forwarded head first; a length mismatch is only noticed while the body arrives
 RejectedAtRecv(c) ==
   IF c.from = "h1" THEN c.cls = "space_path"
@@ -81,7 +83,13 @@ Outcome(c) ==
              THEN [base EXCEPT !.n = 1, !.complete = TRUE, !.own = TRUE]             \* 502 page made by the proxy
              ELSE base)
   ELSE IF Partial(c)
-       THEN (IF c.to = "h1" THEN base ELSE [base EXCEPT !.n = 1, !.recv = [Recv(c) EXCEPT !.body = <<>>, !.trailers = <<>>]])
+       THEN (IF c.to # "h1" THEN [base EXCEPT !.n = 1, !.recv = [Recv(c) EXCEPT !.body = <<>>, !.trailers = <<>>]]
+             \* cl_short_mid: the first DATA frame fills the declared length, so the HTTP/1 message is complete; hyper-h2
+             \* refuses the next frame, aioquic compares the lengths only at the end of the stream (ExcessBodyToH1)
+             ELSE IF c.cls = "cl_short_mid"
+                  THEN [base EXCEPT !.n = 1, !.complete = TRUE, !.extra = IF c.from = "h3" THEN 1 ELSE 0,
+                                    !.recv = [Recv(c) EXCEPT !.body = <<>>]]
+             ELSE base)
   ELSE IF c.to = "h1" /\ c.from # "h1" /\ c.dir = "req" /\ c.cls \in {"space_path", "space_method"}
        THEN [base EXCEPT !.extra = 1, !.mal = "request_line"]                        \* PseudoSpaceToH1
   ELSE IF c.to = "h1" /\ c.from # "h1" /\ c.dir = "req" /\ c.cls = "nocl"
@@ -98,7 +106,7 @@ Translate(c) ==
   /\ Live /\ done' = TRUE
   /\ LET o == Outcome(c) IN
      Emit(<<[k |-> "xlate", dir |-> c.dir, from |-> c.from, to |-> c.to, cls |-> c.cls, mode |-> c.mode, body |-> c.body,
-             valid |-> c.valid, sent |-> c.sent, crashed |-> o.crashed, n |-> o.n, extra |-> o.extra, mal |-> o.mal,
+             valid |-> c.valid, bodydef |-> c.bodydef, sent |-> c.sent, crashed |-> o.crashed, n |-> o.n, extra |-> o.extra, mal |-> o.mal,
              complete |-> o.complete, own |-> o.own, recv |-> o.recv],
             [k |-> "end"]>>)
 
